@@ -22,6 +22,24 @@ def peel_ok(v):
 PEEL = re.compile(r'(Try>?::branch|Result::map_err|Option::ok_or_else|Option::ok_or|Result::map|Option::map|Option::as_ref|Result::as_ref)$')
 
 
+def _is_downcast_payload(v):
+    """the value is (a reference to) what `downcast_responder(..)?` yielded itself - the stored answer closure when the responder box holds
+    it directly rather than inside a one-field struct"""
+    v = strip(v)
+    for _ in range(8):
+        if v[0] == 'ref' and v[1][0][0] == 'ptr' and all(e == ('f', '0') or e[0] == 'dc' for e in v[1][1]):
+            v = strip(v[1][0][1])
+        elif v[0] == 'deref':
+            v = strip(v[1])
+        elif v[0] == 'field' and v[2] == '0' and strip(v[1])[0] == 'as' and strip(v[1])[2] in OKV:
+            v = strip(strip(v[1])[1])
+        elif v[0] == 'call' and PEEL_OK.search(v[1]) and v[2]:
+            v = strip(v[2][0])
+        else:
+            break
+    return is_call(v, r'DynCtx::downcast_responder$')
+
+
 def peel_result(v):
     v = strip(v)
     while v[0] == 'call' and PEEL.search(v[1]) and v[2]:
@@ -309,7 +327,8 @@ def eval_table(chk, F, rule, cfg):
                     lab += '[continuation not a literal variant on this path: %s]' % show(c)[:60]
                 elif c[3] == 'Answer':
                     a = strip(c[4][0][1])
-                    ok = is_call(a, r'AnswerClosure<F> as core::clone::Clone>::clone$') and field_path(a[2][0])[1][-1:] == ['answer_closure'] and \
+                    ok = is_call(a, r'AnswerClosure<F> as core::clone::Clone>::clone$') and \
+                        (field_path(a[2][0])[1][-1:] == ['answer_closure'] or _is_downcast_payload(a[2][0])) and \
                         mentions(a, lambda x: is_call(x, r'DynCtx::downcast_responder$'))
                     lab += '' if ok else '[answer closure is not the stored one: %s]' % show(a)
             else:
@@ -942,6 +961,18 @@ def slot_predicate(chk, F, rule, cfg, cf):
             for p in paths:
                 feasible = True
                 for d in p.decisions:
+                    dv_ = strip(d.value)
+                    if dv_[0] == 'discr' and dv_[2] == 'core::option::Option' and _range_path(field_path(dv_[1])[1])[-1:] == ['ordered_call_index_range']:
+                        # the slot range kept as Option<Range>: `None` = a pattern that owns no slot (unordered) - it must never claim one;
+                        # the partition below speaks about patterns that have a range
+                        if decision_variant(F, d) == 'None':
+                            feasible = False
+                            o_ = p.outcome[1] if p.outcome[0] == 'return' else None
+                            if (d1, d2) == (-1, -1):
+                                chk.ob(rule, 'a pattern without slots (range None) never owns a slot', o_ is not None and strip(o_) == ('c', False), config=cfg, fn=cf, site='pred:none',
+                                       what='slot predicate for a pattern without a range -> %s' % (show(o_)[:60] if o_ is not None else None))
+                            break
+                        continue
                     inner, t = L.truth_of(d)
                     cmp = as_comparison(inner) if t is not None else None
                     if not cmp:
@@ -979,12 +1010,22 @@ def slot_predicate(chk, F, rule, cfg, cf):
                what='slot predicate boundary (i-start=%+d,i-end=%+d) -> %s' % (d1, d2, sorted(outs)), found=sorted(outs), expected=[want])
 
 
+def _range_path(ns):
+    """field path with the payload step of `Option<Range>` removed: [.., 'ordered_call_index_range', '0', 'start'] -> [.., 'ordered_call_index_range', 'start']"""
+    out = []
+    for i, n in enumerate(ns):
+        if n == '0' and i > 0 and ns[i - 1] == 'ordered_call_index_range':
+            continue
+        out.append(n)
+    return out
+
+
 def contains_owns_slot(o):
     """`range.contains(&x)` on the pattern's own slot range with x = the call's position itself (std contract: start <= x < end)"""
     o = strip(o)
     if not (is_call(o, r'ops::Range(<Idx>)?::contains$|RangeBounds>?::contains$') and len(o[2]) == 2):
         return False
-    if field_path(strip(o[2][0]))[1][-1:] != ['ordered_call_index_range']:
+    if _range_path(field_path(strip(o[2][0]))[1])[-1:] != ['ordered_call_index_range']:
         return False
     a = strip(o[2][1])
     if a[0] == 'ref' and len(a) > 3:
@@ -1012,6 +1053,7 @@ def eval_slot_cmp(cmp, d1, d2, want_sym=False):
         if c != 1:
             return None
         root, ns = field_path(s)
+        ns = _range_path(ns)
         if ns[-2:] == ['ordered_call_index_range', 'start']:
             return ('start', lin[1])
         if ns[-2:] == ['ordered_call_index_range', 'end']:
